@@ -10,6 +10,9 @@ has n_subsets = #distinct indices, subset i carries the values of the i-th small
 (all-ones == missing per field width), every other parameter but the lengths is unchanged, the
 source message renders the same before and after, out-of-range collections are refused with a
 PyBufrKitError; the `pybufrkit subset` command is exercised through a subprocess.
+Histories (harness/c10hist.py): the same comparison and the same oracle over sequences of operations on ONE message object
+with one Encoder/Decoder - several subset() calls before any result is encoded, results encoded in another order / twice,
+results changed by the caller, refused calls and source renderings / re-encodings in between, subsets of subsets.
 """
 import copy
 import glob
@@ -21,10 +24,15 @@ import os
 import random
 import subprocess
 import tempfile
+import time
 
 from harness import core
+from harness import c10hist
 
 PROP = 'C10'
+# histories per source message: on the object that served the single calls ('used..', same task) and on a freshly decoded
+# object ('fresh..', a task of its own so that a slow message is spread over two processes)
+HISTORIES = {'quick': {'used': ['used'], 'fresh': ['fresh']}, 'thorough': {'used': ['used', 'used-b'], 'fresh': ['fresh', 'fresh-b']}}
 
 META = dict(
     text='Kernel-checked theorems over the model of BufrMessage.subset for every message shape (any number of sections, '
@@ -32,15 +40,25 @@ META = dict(
          'whose template data are the rows at the sorted distinct indices in increasing order, whose n_subsets is the number of '
          'distinct indices and whose every other parameter (descriptors, compression flag, identification) is the source value; '
          'any index < 0 or >= n is refused with a library error; selecting all indices gives the message\'s own data; '
-         'subsetting a subset equals subsetting the source with the composed indices; the source is only read. '
-         'Correspondence: subset() vs the model on sample files (compressed and not) and synthesised 2..8-subset messages x '
+         'subsetting a subset equals subsetting the source with the composed indices; the source is only read; and '
+         '(C10_reencode_decode, composing with the walk-level round trips of C03/C05) for selected rows that the checked '
+         'encoder accepts, compressed or not, the decoder reads back from the encoder\'s bits exactly as many subsets as there '
+         'are distinct indices, the i-th being value for value the canonical form of the source subset with the i-th smallest '
+         'index. Correspondence: subset() vs the model on sample files (compressed and not) and synthesised 2..8-subset messages x '
          'index collections (single, full, first/last, reversed, repeats, random, out of range by one on each side, negative), '
-         'exact comparison; the re-encode/decode part of the property (values of the i-th smallest index modulo all-ones = missing, '
-         'metadata unchanged, source unchanged, refusal) is evaluated directly on the implementation, incl. the CLI command.',
-    technique='Lean 4 theorems (induction over parameter lists, sorted-distinct uniqueness) + checked model/implementation '
-              'correspondence + implementation-level oracle through Encoder/Decoder',
-    note='The coder (re-packing of the reduced columns by the encoder and its decoding) is not modelled here; that part of C10 '
-         'is observed on the implementation only (oracle) and is covered by the coder properties C01-C05.')
+         'exact comparison, each result consumed at once AND within operation histories on one message object with one '
+         'Encoder/Decoder (several subset() calls - equal and different collections, refused ones in between, subsets of '
+         'subsets - before any result is encoded; results encoded in another order, twice, after the caller changed other '
+         'results; the source rendered / re-encoded before, between and after): every result, as returned and as it is at the '
+         'end of the history, equals the model\'s pure function of (message, indices). The re-encode/decode part of the property '
+         '(values of the i-th smallest index modulo all-ones = missing, metadata unchanged, source unchanged, refusal) is '
+         'evaluated directly on the implementation for every encode of every history, incl. the CLI command.',
+    technique='Lean 4 theorems (induction over parameter lists, sorted-distinct uniqueness, composition with the coder round-trip '
+              'theorems) + checked model/implementation correspondence over single calls and operation histories + '
+              'implementation-level oracle through Encoder/Decoder',
+    note='C10_reencode_decode is stated for the walk-level coder model (data section; hypothesis: the checked encoder accepts the '
+         'selected rows); the section framing around it (C04) and the float layer are not part of it. Aliasing is modelled by '
+         'value: what sharing of lists between results / source could break is observed through the histories.')
 
 QUICK_MAX_BYTES = 30000
 QUICK_FILES = 40
@@ -172,7 +190,11 @@ def msg_for_model(m, interner):
 def canon_input(m, data, interner):
     """Canonical form of what subset() returned, positions typed by the source message's parameters."""
     out = []
+    if not isinstance(data, list) or len(data) != len(m.sections):
+        return 'shape'
     for section, sd in zip(m.sections, data):
+        if not isinstance(sd, list) or len(sd) != len(list(section)):
+            return 'shape'
         row = []
         for p, v in zip(section, sd):
             if p.type == 'template_data':
@@ -358,7 +380,7 @@ def raw_of(v, f):
 def allones_with_missing(rows0, fields0, sel):
     """Is there a numeric/code column whose selected values are the field's all-ones pattern in some subsets and missing in
     all the others?  (Only a compressed source can hold such a value: minimum + increment.)"""
-    if not sel or any(len(rows0[i]) != len(fields0[i]) for i in sel):
+    if not sel or sel[-1] >= len(rows0) or sel[-1] >= len(fields0) or any(len(rows0[i]) != len(fields0[i]) for i in sel):
         return False
     f0 = fields0[sel[0]]
     for c, f in enumerate(f0):
@@ -371,14 +393,15 @@ def allones_with_missing(rows0, fields0, sel):
     return False
 
 
-def check_case(st, m, rows0, fields0, meta0, n, I):
+def check_case(st, m, rows0, fields0, meta0, n, I, oracle=True):
     """Evaluate the property on the implementation for one index collection.
     Returns (impl_result_raw_or_tag, problems, info); problems = list of (kind, text, signature extras)."""
     from pybufrkit.errors import PyBufrKitError
     problems = []
     info = {}
+    passed = list(I)
     try:
-        data = m.subset(list(I))
+        data = m.subset(passed)
     except Exception as e:
         tag = core.err_tag(e)
         if in_range(I, n) and I:
@@ -387,32 +410,45 @@ def check_case(st, m, rows0, fields0, meta0, n, I):
             problems.append(('refusal', 'out-of-range collection %r (n=%d) raised %s, not a PyBufrKitError' % (I[:12], n, type(e).__name__),
                              {'how': 'other-error'}))
         return tag, problems, info
+    if passed != list(I):
+        problems.append(('argument-modified', 'subset() changed the caller\'s index list %r into %r' % (list(I)[:12], passed[:12]), {}))
     if not in_range(I, n):
         problems.append(('refusal', 'out-of-range collection %r accepted for a %d-subset message' % (I[:12], n), {'how': 'accepted'}))
         return data, problems, info
-    if not st.get('reencodable', True):
+    if not st.get('reencodable', True) or not oracle:
         return data, problems, info
+    encode_decode_compare(st, data, rows0, fields0, meta0, n, bool(m.is_compressed.value), I, problems, info)
+    return data, problems, info
+
+
+def encode_decode_compare(st, data, rows0, fields0, meta0, n, compressed, I, problems, info):
+    """The re-encode/decode half of the property for one encoder input `data` that subset(I) returned for a message with
+    the value lists rows0 (per-row field codings fields0) and parameters meta0: Decoder(Encoder(data)) holds exactly the rows
+    at the sorted distinct indices.  Appends to problems; returns (encoder's message, bytes, decoded message, its fields) or None."""
     sel = sorted(set(I))
     repeats = len(sel) != len(I)
     try:
-        nb = st['enc'].process(data, wire_template_data=False).serialized_bytes
+        em = st['enc'].process(data, wire_template_data=False)
+        nb = em.serialized_bytes
     except Exception as e:
         problems.append(('encode-raises', 'Encoder refused subset(%r) (n=%d, compressed=%s): %s' % (
-            I[:12], n, m.is_compressed.value, type(e).__name__), {'repeats': repeats, 'exc': type(e).__name__}))
-        return data, problems, info
+            I[:12], n, compressed, type(e).__name__), {'repeats': repeats, 'exc': type(e).__name__}))
+        return None
     try:
         m2, fields2 = st['dec'].decode_with_fields(nb)
     except Exception as e:
         problems.append(('decode-raises', 'result of subset(%r) (n=%d) does not decode: %s' % (I[:12], n, type(e).__name__),
                          {'repeats': repeats, 'exc': type(e).__name__,
-                          'allones_with_missing': bool(m.is_compressed.value) and allones_with_missing(rows0, fields0, sel)}))
-        return data, problems, info
+                          'allones_with_missing': bool(compressed) and allones_with_missing(rows0, fields0, sel)}))
+        return None
     info['reencoded'] = True
     if m2.n_subsets.value != len(sel):
         problems.append(('n_subsets', 'n_subsets=%r after subset(%r), %d distinct indices' % (m2.n_subsets.value, I[:12], len(sel)),
                          {'repeats': repeats}))
     rows2 = m2.template_data.value.decoded_values_all_subsets
-    if len(rows2) != len(sel):
+    if sel and sel[-1] >= len(rows0):
+        problems.append(('hypothesis', 'the message has n_subsets=%d but %d value lists (subset(%r))' % (n, len(rows0), I[:12]), {}))
+    elif len(rows2) != len(sel):
         problems.append(('values', '%d value lists after subset(%r), %d distinct indices' % (len(rows2), I[:12], len(sel)), {'repeats': repeats}))
     else:
         n_allones = n_pad = 0
@@ -445,7 +481,7 @@ def check_case(st, m, rows0, fields0, meta0, n, I):
     if meta2 != meta0:
         diff = [(a[0], a[1], b[1]) for a, b in zip(meta0, meta2) if a != b][:4]
         problems.append(('metadata', 'parameters changed by subset(%r): %r' % (I[:12], diff if len(meta0) == len(meta2) else 'different parameter lists'), {}))
-    return data, problems, info
+    return em, nb, m2, fields2
 
 
 SKIP_META = ('length', 'section_length', 'n_subsets')
@@ -466,7 +502,7 @@ def run_source(task):
     """One source message: all its index collections on the implementation and on the model.  Runs in a worker."""
     src, seed, tier = task['src'], task['seed'], task['tier']
     st = _impl()
-    res = {'src': src, 'cases': [], 'problems': [], 'skipped': None}
+    res = {'src': src, 'cases': [], 'problems': [], 'skipped': None, 'part': task.get('part')}
     try:
         with open(os.path.join(core.REPO, src['file']), 'rb') as f:
             data = f.read()
@@ -498,23 +534,37 @@ def run_source(task):
     meta0 = metadata(m)
     before = render_hash(st, m)
     # precondition of the re-encode part: the message itself can be re-encoded and decoded
+    reenc0 = None
     try:
-        st['dec'].process(st['enc'].process(st['render'].render(m), wire_template_data=False).serialized_bytes, wire_template_data=False)
+        reenc0 = st['enc'].process(st['render'].render(m), wire_template_data=False).serialized_bytes
+        st['dec'].process(reenc0, wire_template_data=False)
         st['reencodable'] = True
     except Exception as e:
         st['reencodable'] = False
         res['not_reencodable'] = type(e).__name__
-    if render_hash(st, m) != before:
-        raise core.MachineryError('rendering/encoding the source changed it: %r' % (src,))
+    if render_hash(st, m) != before or m.template_data.value.decoded_values_all_subsets != rows0:
+        # not a subset() call, but the same statement: rendering a message and encoding the rendering leaves the message alone
+        res['problems'].append({'kind': 'source-modified', 'I': [], 'extra': {'by': 'reencode-source'},
+                                'text': 'rendering the source message (flat JSON) and encoding the rendering changed the source message'})
+        rows0 = copy.deepcopy(m.template_data.value.decoded_values_all_subsets)
+        before = render_hash(st, m)
+    only_hist = task.get('only_history')
     if 'only' in task:
         colls = [('replay', task['only'])]
+    elif (only_hist and not only_hist['which'].startswith('used')) or task.get('part') == 'fresh':
+        colls = []
     else:
         colls = collections(core.rng_for(PROP, seed, 'idx:' + json.dumps(src, sort_keys=True)), n, tier)
     interner = Interner()
     mm = msg_for_model(m, interner)
     impl_out = []
+    seen = set()
     for lab, I in colls:
-        raw, problems, info = check_case(st, m, rows0, fields0, meta0, n, I)
+        # a one-subset message: every in-range collection selects the message itself; in the quick tier the encode/decode
+        # oracle runs once without and once with repeats (subset(), refusal and the model comparison run for all)
+        key = (len(I) != len(set(I))) if (n == 1 and tier == 'quick' and in_range(I, n) and 'only' not in task) else tuple(I) + (len(seen),)
+        raw, problems, info = check_case(st, m, rows0, fields0, meta0, n, I, oracle=key not in seen)
+        seen.add(key)
         if render_hash(st, m) != before or m.template_data.value.decoded_values_all_subsets != rows0:
             problems.append(('source-modified', 'the source message renders differently after subset(%r) + encode' % (I[:12],), {}))
             before = render_hash(st, m)
@@ -525,8 +575,38 @@ def run_source(task):
                              'allones': info.get('allones', 0)})
         for kind, text, extra in problems:
             res['problems'].append({'kind': kind, 'text': text, 'I': I, 'extra': extra})
+    # operation histories on one message object (a freshly decoded one; the one used above), see harness/c10hist.py
+    hists = []
+    res['histories'] = []
+    if 'only' not in task:
+        part = task.get('part')
+        plan_for = HISTORIES[tier][part] if part else HISTORIES[tier]['fresh'] + HISTORIES[tier]['used']
+        if part == 'used' and n == 1 and tier == 'quick':
+            plan_for = []       # one subset: every in-range selection is the message itself; the fresh history covers it
+        for which in ([only_hist['which']] if only_hist else plan_for):
+            if which.startswith('fresh'):
+                mh, fh = st['dec'].decode_with_fields(data)
+            else:
+                mh, fh = m, fields0
+            if only_hist:
+                ops = only_hist['ops']
+            else:
+                ops = c10hist.plan(core.rng_for(PROP, seed, 'hist:%s:%s' % (which, json.dumps(src, sort_keys=True))), n, tier)
+            h = c10hist.execute(st, mh, fh, ops, reencodable=st['reencodable'], reenc0=reenc0 if st['reencodable'] else None)
+            h['which'], h['ops'] = which, ops
+            hists.append(h)
     # the model on the same message and collections
-    out = core.Driver().batch([{'op': 'subset', 'msg': mm, 'idxs': [I for _, I in colls]}])[0]
+    outs = core.Driver().batch([{'op': 'subset', 'msg': mm, 'idxs': [I for _, I in colls]}] + [rq for h in hists for rq in h['requests']])
+    out = outs[0]
+    k = 1
+    for h in hists:
+        nreq = len(h['requests'])
+        h['problems'] += c10hist.compare_model(h['expect'], outs[k:k + nreq])
+        k += nreq
+        for kind, text, extra, at in h['problems']:
+            res['problems'].append({'kind': kind, 'text': 'history(%s) %s' % (h['which'], text), 'I': [], 'extra': extra,
+                                    'hist': {'which': h['which'], 'ops': h['ops'], 'at': at}})
+        res['histories'].append({'which': h['which'], 'stats': h['stats'], 'digest': c10hist.digest(h['ops'])[:400], 'nops': len(h['ops'])})
     if out['n'] != n:
         res['problems'].append({'kind': 'correspondence', 'text': 'model reads n_subsets=%r, implementation %r' % (out['n'], n), 'I': [], 'extra': {}})
     if not out.get('wf'):
@@ -641,15 +721,17 @@ def report(ctx, res):
     src = res['src']
     name = src['file'] + ('#synth:' + src['synth'] if src.get('synth') else '')
     if res['skipped']:
-        ctx.count('skipped: ' + res['skipped'])
+        if res.get('part') != 'fresh':
+            ctx.count('skipped: ' + res['skipped'])
         return
-    ctx.count('messages')
-    ctx.count('messages compressed' if res['compressed'] else 'messages uncompressed')
-    ctx.count('messages multi-subset' if res['n'] > 1 else 'messages single-subset')
-    if src.get('synth'):
-        ctx.count('messages synthesised')
-    if res.get('not_reencodable'):
-        ctx.count('messages not re-encodable as they are (%s): subset()/refusal/correspondence only' % res['not_reencodable'])
+    if res.get('part') != 'fresh':
+        ctx.count('messages')
+        ctx.count('messages compressed' if res['compressed'] else 'messages uncompressed')
+        ctx.count('messages multi-subset' if res['n'] > 1 else 'messages single-subset')
+        if src.get('synth'):
+            ctx.count('messages synthesised')
+        if res.get('not_reencodable'):
+            ctx.count('messages not re-encodable as they are (%s): subset()/refusal/correspondence only' % res['not_reencodable'])
     for c in res['cases']:
         ctx.count('idx ' + c['label'])
         ctx.traces += 1
@@ -657,9 +739,21 @@ def report(ctx, res):
         ctx.case({'src': name, 'I': c['I']}, nontrivial=nontrivial, sample=(ctx.evaluations % 211 == 0))
         if c['allones']:
             ctx.count('values identified all-ones == missing', c['allones'])
+    for h in res.get('histories', []):
+        stt = h['stats']
+        ctx.count('histories')
+        ctx.count('history ops', h['nops'])
+        for key, v in sorted(stt.items()):
+            if v and key not in ('objects',):
+                ctx.count('hist ' + key, v)
+        ctx.traces += stt.get('results compared with the model', 0)
+        nontrivial = stt.get('encode after a later subset()', 0) >= 1 and stt.get('subset', 0) >= 3
+        ctx.case({'src': name, 'history': h['which'], 'ops': h['digest']}, nontrivial=nontrivial, sample=(ctx.evaluations % 97 == 0))
     for p in res['problems']:
         sig = dict(p['extra'], kind=p['kind'])
         replay = {'src': src, 'I': p['I'], 'kind': p['kind'], 'n': res['n'], 'compressed': res['compressed']}
+        if p.get('hist'):
+            replay['history'] = p['hist']
         ctx.violation('%s [%s, n=%d, %s]: %s' % (p['kind'], name, res['n'], 'compressed' if res['compressed'] else 'uncompressed', p['text']),
                       replay, signature=sig)
 
@@ -677,7 +771,8 @@ def shrink(ctx, res):
         I = list(p['I'])
         changed = True
         budget = 40
-        while changed and len(I) > 1 and budget > 0:
+        deadline = ctx.__dict__.setdefault('c10_shrink_deadline_i', time.time() + (45 if ctx.tier == 'quick' else 300))
+        while changed and len(I) > 1 and budget > 0 and time.time() <= deadline:
             changed = False
             for k in range(len(I)):
                 J = I[:k] + I[k + 1:]
@@ -696,11 +791,58 @@ def shrink(ctx, res):
                 p['I'], p['text'] = I, q[0]['text']
 
 
+def shrink_history(ctx, res):
+    """Shorten the history of every distinct kind of history problem: drop one operation at a time (operations whose
+    referent disappears are skipped by the executor), the same kind of problem must persist."""
+    seen = set()
+    done = ctx.__dict__.setdefault('c10_shrunk_h', {})
+    for p in list(res['problems']):
+        if not p.get('hist'):
+            continue
+        key = (p['kind'], json.dumps(p['extra'], sort_keys=True))
+        if key in seen or done.get(key, 0) >= 2:
+            continue
+        seen.add(key)
+        done[key] = done.get(key, 0) + 1
+        which, ops = p['hist']['which'], list(p['hist']['ops'])
+        deadline = ctx.__dict__.setdefault('c10_shrink_deadline', time.time() + (30 if ctx.tier == 'quick' else 300))
+        state = {'which': which}
+
+        def still(cand, which=None):
+            if time.time() > deadline:
+                return []
+            r = run_source({'src': res['src'], 'seed': ctx.seed, 'tier': ctx.tier,
+                            'only_history': {'which': which or state['which'], 'ops': cand}})
+            return [q for q in r['problems'] if q.get('hist') and q['kind'] == p['kind'] and q['extra'] == p['extra']]
+        if which.startswith('used') and still(ops, 'fresh'):
+            state['which'] = 'fresh'     # the calls made on the object before the history are not needed
+        at = p['hist'].get('at')
+        if at is not None and at + 1 < len(ops) and still(ops[:at + 1]):
+            ops = ops[:at + 1]
+        budget = 45
+        k = len(ops) - 1
+        while k >= 0 and budget > 0 and len(ops) > 1 and time.time() <= deadline:
+            cand = ops[:k] + ops[k + 1:]
+            budget -= 1
+            if still(cand):
+                ops = cand
+            k -= 1
+        if len(ops) < len(p['hist']['ops']) or state['which'] != which:
+            q = still(ops)
+            if q:
+                p['hist'], p['text'] = q[0]['hist'], q[0]['text']
+
+
 def run(ctx):
     ctx.rule = ('sample messages (tests/data + tests/benchmark_data) and messages synthesised from them with 2..8 subsets, compressed and '
                 'not, x index collections {single, first, last, first/last, full, reversed, random, with repeats, out of range by one on '
                 'each side, far out of range, negative}. Non-trivial: in-range collection on a multi-subset message whose result was '
-                're-encoded and decoded, or a refused out-of-range collection; distinct by (message, collection).')
+                're-encoded and decoded, or a refused out-of-range collection; distinct by (message, collection). '
+                'Plus, per message, operation histories (harness/c10hist.py) on a freshly decoded object and on the object used '
+                'above: 3-8 subset() calls (different / equal collections, refused calls in between, subsets of derived messages) '
+                'before and between the encodes, results encoded in another order / twice, caller mutation of returned lists, '
+                'source rendered / re-encoded in between; non-trivial history: >= 3 subset() calls and a result encoded after a '
+                'later subset() call.')
     files = corpus_files(ctx)
     tasks = [{'src': {'file': f}, 'seed': ctx.seed, 'tier': ctx.tier} for f in files]
     rng = ctx.rng('synth')
@@ -711,14 +853,19 @@ def run(ctx):
         tasks.append({'src': {'file': f, 'synth': '%d:%d:%d' % (ctx.seed, k, rng.randrange(10 ** 9))}, 'seed': ctx.seed, 'tier': ctx.tier})
     for t in tasks:
         t['src']['file'] = rel(t['src']['file'])
+    tasks = [dict(t, part=part) for t in tasks for part in ('used', 'fresh')]
     results = run_tasks(tasks)
     for res in results:
         if res['problems']:
             shrink(ctx, res)
+            shrink_history(ctx, res)
         report(ctx, res)
     cli_cases(ctx, [os.path.join(core.REPO, 'tests', 'data', x) for x in ('g2nd_208.bufr', 'contrived.bufr', '207003.bufr', 'ISMD01_OKPR.bufr')])
     ctx.assumptions = [
-        'the re-encode/decode part is evaluated on the implementation (coder not modelled in this property)',
+        'the re-encode/decode part is evaluated on the implementation; C10_reencode_decode proves it for the walk-level coder model '
+        'under the hypothesis that the checked encoder accepts the selected rows',
+        'caller mutation in the histories touches only lists that subset() builds itself (outer list, section lists, list of value '
+        'lists); the value lists and parameter values (descriptor list) are shared with the source by the code as it is',
         'messages that the Encoder cannot re-encode even unmodified (tables not available without normalisation) take part in the '
         'subset()/refusal/correspondence comparison only',
         'value comparison identifies a field\'s all-ones pattern with missing using the width/scale/reference the decoder used for that field',
@@ -727,12 +874,22 @@ def run(ctx):
 
 
 def run_tasks(tasks):
+    def size(t):
+        try:
+            return os.path.getsize(os.path.join(core.REPO, t['src']['file']))
+        except OSError:
+            return 0
+    order = sorted(range(len(tasks)), key=lambda k: (-size(tasks[k]), k))      # the slow ones first; results in task order
     with multiprocessing.Pool(min(16, os.cpu_count() or 4)) as pool:
         try:
             # a worker that dies would make a plain map() wait forever
-            return pool.map_async(run_source, tasks, chunksize=1).get(timeout=6 * 3600)
+            out = pool.map_async(run_source, [tasks[k] for k in order], chunksize=1).get(timeout=6 * 3600)
         except multiprocessing.TimeoutError:
             raise core.MachineryError('worker pool did not finish')
+    results = [None] * len(tasks)
+    for k, r in zip(order, out):
+        results[k] = r
+    return results
 
 
 def replay(ctx, path):
@@ -741,6 +898,10 @@ def replay(ctx, path):
     if 'cli' in rp:
         cli_cases(ctx, [os.path.join(core.REPO, rp['cli'])])
         return
-    res = run_source({'src': rp['src'], 'seed': body.get('seed', 0), 'tier': 'quick', 'only': rp['I']})
+    if rp.get('history'):
+        res = run_source({'src': rp['src'], 'seed': body.get('seed', 0), 'tier': body.get('tier', 'quick'),
+                          'only_history': {'which': rp['history']['which'], 'ops': rp['history']['ops']}})
+    else:
+        res = run_source({'src': rp['src'], 'seed': body.get('seed', 0), 'tier': 'quick', 'only': rp['I']})
     report(ctx, res)
     print(json.dumps({'n': res.get('n'), 'cases': res['cases'], 'problems': [p['text'] for p in res['problems']]})[:2000])
